@@ -49,13 +49,30 @@ struct Case {
     pos: usize,
 }
 
+/// the event type of this check carries a column of every kind, so that materialised frames
+/// have to encode and decode all of them
+fn define14() -> String {
+    "DEFINE a FIELDS { k: \"int\", s: \"string\", ta: \"int\", n: \"int\", f: \"float\", dd: \"date\", dt: \"datetime\", en: [\"x\", \"y\"], bb: \"bool\", ob: \"int | null\" }".to_string()
+}
+
 fn store_cmd(k: i64) -> String {
-    Ev { k, typ: "a".into(), ctx: format!("c{}", k % 2) }.store_cmd()
+    let e = Ev { k, typ: "a".into(), ctx: format!("c{}", k % 2) };
+    let ob = if k % 2 == 0 { format!(",\"ob\":{}", k * 3) } else { String::new() };
+    format!(
+        "STORE a FOR {} PAYLOAD {{\"k\":{k},\"s\":\"v{k}\",\"ta\":1,\"n\":{},\"f\":{:?},\"dd\":\"2023-11-{:02}\",\"dt\":{},\"en\":\"{}\",\"bb\":{}{ob}}}",
+        e.ctx,
+        e.big(),
+        e.frac(),
+        10 + k % 15,
+        1_700_000_000 + k,
+        if k % 3 == 0 { "x" } else { "y" },
+        k % 2 == 1
+    )
 }
 
 /// returns per SHOW: (show keys, query keys, show status), plus status of the second REMEMBER
 fn run_case(dir: &std::path::Path, c: &Case) -> Result<(Vec<(Vec<i64>, Vec<i64>, u16)>, u16, u16), String> {
-    let mut lives: Vec<Vec<Op>> = vec![vec![Op::Cmd { text: define_cmd("a") }, Op::Cmd { text: store_cmd(0) }]];
+    let mut lives: Vec<Vec<Op>> = vec![vec![Op::Cmd { text: define14() }, Op::Cmd { text: store_cmd(0) }]];
     let mut k = 1i64;
     let mut show_pos: Vec<(usize, usize)> = Vec::new();
     let mut remember_pos = (0usize, 0usize);
@@ -185,6 +202,11 @@ pub fn check(tier: &str) -> i32 {
         let c = &cases[i];
         let key0 = format!("cfg({},{},{})|{}|{:?}|remember@{}", c.cfg.shards, c.cfg.fill_factor, c.cfg.event_per_zone, c.q, c.seq, c.pos);
         match r {
+            Err(e) if e.contains("panic in job") => {
+                // the engine panicked while serving a command of the history (e.g. a SHOW that cannot
+                // decode its stored frames): a failed answer, not a failure of the machinery
+                failing.push(Failing { key: key0.clone(), digest: crate::golden::digest(&e.chars().filter(|c| !c.is_ascii_digit()).collect::<String>()), class: "the engine panics while serving a command of the history".into(), detail: json!({"query": c.q, "history": format!("{:?}", c.seq), "remember_before_op": c.pos, "error": e}) });
+            }
             Err(e) => {
                 eprintln!("MACHINERY: {key0}: {e}");
                 return 2;
